@@ -320,10 +320,10 @@ func (e *encRun) judge(x int, mainc rune, comb []rune, got []byte) {
 	switch {
 	case why == "acs" && acsHighByte(e.ti, mainc, string(got)):
 		e.finding("acs-high-byte-utf8", "%s — the terminal's ACS character is a byte >= 0x80 and is written UTF-8 encoded", desc)
-	case why == "acs" && lastOnly:
-		e.finding("acs-last-pair-dropped", "%s — the acsc pair naming this rune is the last pair of the string", desc)
 	case why == "acs" && len(want) > 0 && strings.Contains(e.ti.EnterAcs+e.ti.ExitAcs, "$<") && strings.Contains(string(got), "$<"):
 		e.finding("acs-padding-literal", "%s — the padding specification of smacs/rmacs is written to the terminal verbatim", desc)
+	case why == "acs" && lastOnly:
+		e.finding("acs-last-pair-dropped", "%s — the acsc pair naming this rune is the last pair of the string", desc)
 	case !e.cd.utf8 && len(got) > 0 && got[0] == 0x1a:
 		e.finding("subst-byte", "%s", desc)
 	case !e.cd.utf8 && mainc >= 0x80 && bytes.HasPrefix(got, []byte(string(mainc))) && why != "encoded":
@@ -483,7 +483,12 @@ func execEnc(line string) h.Result {
 
 // ---- generation ----
 
-func acsVariant() string {
+func acsVariant() (res string) {
+	defer func() {
+		if recover() != nil {
+			res = "pp"
+		}
+	}()
 	m := tcell.VerifAcsMap(&terminfo.Terminfo{Name: "probe", AltChars: "~~", EnterAcs: "<", ExitAcs: ">"})
 	v := "p"
 	if _, ok := m[tcell.RuneBullet]; ok {
